@@ -655,12 +655,93 @@ def gen_deep(rng, tier, n_classes):
     return cases
 
 
+VIA_KINDS = ["plain", "partial", "allrequired", "extend", "omit", "pick", "subclass", "local"]
+# class names a user may choose (type() accepts any string): word-only names keep the field; names with a
+# character outside [\\w.] are the region of the open finding field-lost:non-word-name
+ODD_CLASS_NAMES = ["Foo_1", "F9", "_Priv", "\u00dcn\u00ef", "Foo.Bar", "x\u0301Cls", "My Class", "a-b", "Gen[int]"]
+
+
+def gen_names(rng, tier):
+    """directed stream: the CLASS NAME is the first component of every message head.  Flat classes used
+    directly and through every class-deriving construct of typedpy - Partial / AllFieldsRequired / Extend /
+    Omit / Pick, without and with an explicit class name, a subclass of a derived class, a class whose
+    __qualname__ differs from its __name__ (local class) - and classes created with unusual names (digits,
+    underscores, dots, non-ASCII letters; a combining mark, a space, '-', '[': the finding's region);
+    one or two fields invalid; constructor and both deserialization entry points, fail-fast on/off.
+    Region: which names typedpy gives the classes it creates, and which names survive the [\\w.]+ group."""
+    cases = []
+    reps = 2 if tier == "quick" else 10
+    ci = 0
+    for _ in range(reps):
+        for via in VIA_KINDS + ["name:" + n for n in ODD_CLASS_NAMES]:
+            ci += 1
+            dg = gen.DeclGen(rng, max_depth=1, allow=FLAT_KINDS, p_constraint=0.4)
+            vg = gen.ValGen(rng)
+            cls = dg.class_decl(0, n_fields=rng.randint(2, 4))
+            cls["name"] = via[5:] if via.startswith("name:") else rng.choice(["Person", "Foo", "Order_2", "T"])
+            cls.pop("ignoreNone", None)
+            base = {}
+            for name, fd in cls["fields"]:
+                v = vg.valid(fd)
+                if v is not gen.NOVALUE:
+                    base[name] = v
+            cls["fields"] = [[n, fd] for n, fd in cls["fields"] if n in base]
+            cls["required"] = [r for r in cls["required"] if r in base]
+            if not base:
+                continue
+            names = list(base)
+            kind = "plain" if via.startswith("name:") else via
+            v = {"kind": kind, "name": rng.choice([None, None, "Renamed", "Bar_9"]) if kind in ("partial", "allrequired", "extend", "omit", "pick") else None}
+            if kind in ("omit", "pick") and len(names) > 1:
+                v["keys"] = sorted(rng.sample(names, 1))
+            elif kind in ("omit", "pick"):
+                continue
+            kept = [n for n in names if (kind != "omit" or n not in v["keys"]) and (kind != "pick" or n in v["keys"])]
+            decl_of = dict((n, fd) for n, fd in cls["fields"])
+            for sub in [[x] for x in kept[:2]] + ([kept[:2]] if len(kept) > 1 else []):
+                kw = {n: base[n] for n in kept}
+                ways = []
+                for nm in sub:
+                    way, bad = invalid_value(rng, vg, decl_of[nm], base[nm])
+                    kw[nm] = bad
+                    ways.append(way)
+                kwl = [[k, x] for k, x in kw.items()]
+                for mode, entry in (("construct", None), ("deser", "Deserializer"), ("deser", "deserialize_structure")):
+                    for ff in (True, False):
+                        cases.append({"suite": "errors", "cls": cls, "kw": kwl, "mode": mode, "ff": ff, "entry": entry,
+                                      "via": v, "sub": sub, "ways": ways + ["via:" + via.split(":")[0] + ("+name" if v["name"] else "")],
+                                      "re": gen.re_table(cls, kwl, [[k, x] for k, x in base.items()])})
+    return cases
+
+
+def derive_class(cls, via):
+    """the class a user obtains from `cls` through one of typedpy's class-deriving constructs"""
+    from typedpy import Partial, AllFieldsRequired, Extend, Omit, Pick
+    kind, name, keys = via["kind"], via.get("name"), via.get("keys") or []
+    if kind == "partial":
+        return Partial[cls, name] if name else Partial[cls]
+    if kind == "allrequired":
+        return AllFieldsRequired[cls, name] if name else AllFieldsRequired[cls]
+    if kind == "extend":
+        return Extend[cls, name] if name else Extend[cls]
+    if kind == "omit":
+        return Omit[cls, keys, name] if name else Omit[cls, keys]
+    if kind == "pick":
+        return Pick[cls, keys, name] if name else Pick[cls, keys]
+    if kind == "subclass":
+        return type(cls.__name__ + "Sub", (Partial[cls],), {})
+    if kind == "local":
+        cls.__qualname__ = "make_model.<locals>." + cls.__name__
+        return cls
+    return cls
+
+
 def gen_cases(rng, tier):
     n = 160 if tier == "quick" else 1400
     # the deep stream draws from its own generator seeded from the case stream's rng state AFTER the
     # older streams, so that their cases stay what they were
     out = fixed_cases() + gen_directed(rng, tier) + gen_shared(rng, tier) + gen_mapped(rng, tier) + gen_flat(rng, tier, n) + gen_nested(rng, tier, 60 if tier == "quick" else 500)
-    return out + gen_deep(rng, tier, 50 if tier == "quick" else 500)
+    return out + gen_deep(rng, tier, 50 if tier == "quick" else 500) + gen_names(rng, tier)
 
 
 # ------------------------------------------------------------------ documents and lifting
@@ -863,6 +944,11 @@ def run_impl(case):
     want = dump.normalize_decl(decl)
     if back != want:
         return {"abstraction_mismatch": {"dumped": back, "declared": want}}
+    if case.get("via"):
+        try:
+            cls = derive_class(cls, case["via"])
+        except Exception as e:
+            return {"unbuildable": f"derive: {type(e).__name__}: {e}"}
     cls_actual = C.fix_accepts(dump.dump_class(cls, ctx))
     # the same class with every (nested) class's fields in DEFINITION order: the order deserialization
     # visits them in, at every level (which nested failure comes first decides the exception class)
@@ -885,7 +971,7 @@ def run_impl(case):
             lifted = {k: lift(decl_of[k], v) for k, v in kw.items() if v is not None} if mode == "deser" else {}
     except Exception as e:
         return {"unbuildable": f"value: {type(e).__name__}: {e}"}
-    res = {"cls_actual": cls_actual,
+    res = {"cls_actual": cls_actual, "cls_name_real": cls.__name__,
            "kw_actual": [[k, C.rename_inline(dump.dump_value(v, ctx), ctx)] for k, v in lifted.items()]}
     if history:
         res["history"] = history
@@ -1003,6 +1089,15 @@ def all_texts(msg, depth=0):
 def line(case, impl):
     l = {"suite": "errors", "cls": impl.get("cls_actual", case["cls"]), "kw": impl.get("kw_actual", []),
          "ff": bool(case["ff"]), "mode": case["mode"], "re": case.get("re", [])}
+    if case.get("via"):
+        # a derived class: its NAME is the model's (Lean `derivedName`), not read off the real class
+        v = case["via"]
+        l["via"] = v["kind"]
+        l["baseName"] = case["cls"]["name"] + ("Sub" if v["kind"] == "subclass" else "")
+        if v["kind"] == "subclass":
+            l["via"] = "plain"
+        if v.get("name"):
+            l["viaName"] = v["name"]
     if impl.get("doc_actual") is not None:
         l["doc"] = impl["doc_actual"]
         if impl.get("mapper"):
@@ -1147,7 +1242,12 @@ def names_field(path, cls_name, name):
     return re.fullmatch(r"(?:" + re.escape(cls_name) + r"\.)?" + re.escape(name) + r"(?:_\d+|_key|_value)*", path or "") is not None
 
 
-def path_of_text(t):
+def path_of_text(t, cls_name=None):
+    """the leading `<path>: ` of a message; a known class prefix is taken literally (a class name may
+    contain any character, e.g. a space)"""
+    if cls_name and t.startswith(cls_name + "."):
+        m = re.match(r"([^:\s]+): ", t[len(cls_name) + 1:])
+        return cls_name + "." + m.group(1) if m else None
     m = re.match(r"([^:\s]+): ", t)
     return m.group(1) if m else None
 
@@ -1174,9 +1274,13 @@ def classify_no_path(text, raised, mode, ff, invalid_kinds, supplied_kinds, inne
     return "no-path:other"
 
 
-def classify_lost(text, path):
+def classify_lost(text, path, declared=""):
     if path is not None and re.fullmatch(r"[\w.]+", path) is None:
-        # a name with a character that is neither str.isalnum() nor `_` (e.g. a combining mark)
+        # a name with a character that is neither str.isalnum() nor `_` (e.g. a combining mark): the open
+        # finding covers names the USER chose (class, explicit derived-class name, fields); a non-word character
+        # that none of them contains was put there by typedpy (the name it gave a class it created)
+        if any(re.fullmatch(r"[\w.]", ch) is None and ch not in declared for ch in path):
+            return "field-lost:non-word-name:generated-class-name"
         return "field-lost:non-word-name"
     if "\n" in text:
         return "field-lost:newline"
@@ -1236,7 +1340,9 @@ def oracle(case, impl, model):
     invalid = model["invalid"]
     if not invalid:
         return fails
-    cls_name = case["cls"]["name"]
+    # the class name the message heads must carry: the declared one; for a class typedpy derived, the name the
+    # Lean model gives it (derivedName) - never read off the real class
+    cls_name = (model.get("clsName") if case.get("via") else None) or case["cls"]["name"]
     invalid_kinds = set()
     supplied = [k for k, _ in case["kw"]]
     supplied_kinds = set(fd["k"] for n, fd in case["cls"]["fields"] if n in supplied)
@@ -1306,7 +1412,7 @@ def oracle(case, impl, model):
 
     # (2) every message begins with a path naming ITS invalid supplied field
     for idx, t in enumerate(texts):
-        p = path_of_text(t)
+        p = path_of_text(t, cls_name)
         hit = [n for n in own(idx) if n in invalid and p is not None and names_field(p, cls_name, n)]
         if not hit:
             lost_keys.append((site_key(idx, t, "no-path:other"),
@@ -1328,9 +1434,10 @@ def oracle(case, impl, model):
             if not prob:
                 fails.append(("empty-problem", f"ErrorInfo.problem is empty for {t!r} [{where}]"))
         else:
-            p = path_of_text(t)
+            p = path_of_text(t, cls_name)
             if p is not None and any(names_field(p, cls_name, n) for n in (own(idx) if idx < len(texts) else invalid)):
-                lost_keys.append((classify_lost(t, p),
+                declared = cls_name + "".join(n for n, _ in case["cls"]["fields"]) + ((case.get("via") or {}).get("name") or "")
+                lost_keys.append((classify_lost(t, p, declared),
                                   f"ErrorInfo.field={i.get('field')!r} does not name the invalid field although the message does: {t!r} [{where}]"))
             # else: already reported under (2)
     seen = set()
